@@ -172,7 +172,11 @@ func vpH_C12_others()   { vpC12Frozen(3 + vpChoice(len(vpTypeNames)-3)) }
 // items that are not vocabulary structs
 func vpH_C12_lists() {
 	var x Item
-	switch vpChoice(3) {
+	switch vpChoice(5) {
+	case 3: // lists held by pointer: a helper that gets the caller's own pointer must not store into it
+		x = &IRIs{vpMkIRI('c'), IRI(""), vpMkIRI('a'), IRI("-")}
+	case 4:
+		x = &ItemCollection{vpMkIRI('c'), nil, &Object{ID: vpMkIRI('b'), Type: NoteType}, vpMkIRI('a')}
 	case 0:
 		x = vpMkIRI('a')
 	case 1:
